@@ -25,7 +25,7 @@ theorem C01_never_other_block (W : World) (F : Family) (hk : KeysOverHeader F) (
     (m1 m2 : Member) (h1 : m1 ∈ F.members) (h2 : m2 ∈ F.members) (q : T) :
     genSel W F m1 q → genSel W F m2 q → m1 = m2 := by
   rintro ⟨τ1, gs1, n1, e1, _, l1, p1, a1⟩ ⟨τ2, gs2, n2, e2, _, l2, p2, a2⟩
-  have : gs1 = gs2 := helper_args_unique W F hk q τ1 τ2 gs1 gs2 n1 n2 e1 e2 l1 l2 p1 p2
+  have : gs1 = gs2 := helper_args_unique W F hk q τ1 τ2 gs1 gs2 (wkF_hdr n1) (wkF_hdr n2) e1 e2 l1 l2 p1 p2
   subst this
   exact hc q gs1 m1 m2 h1 h2 a1 a2
 
